@@ -226,6 +226,16 @@ func TestClean(t *testing.T) {
 			if rerr != nil || rd == nil {
 				return
 			}
+			// history: another file is read in between; the first result must still be the model
+			if c.Bool("readOtherInBetween") {
+				o := gen.DrawSXG(c, "other", 2)
+				if _, err := o.Sign(); err == nil {
+					readFile(c, o.File, core.ReaderPlan{ErrAt: -1})
+					if c.Oracle("C02") {
+						checkReadBack(c, rd, l, "ReadExchange/earlier-result-after-later-read")
+					}
+				}
+			}
 			for _, tm := range instants(c, l) {
 				for i, e := range []*signedexchange.Exchange{pub, rd} {
 					v := verify(c, e, tm, net)
@@ -848,6 +858,19 @@ func TestTamper(t *testing.T) {
 		core.Run(t, "sxg/tamper", func(c *core.Ctx) {
 			w := publish(c, c.Int("npub", 1, 3))
 			l := w.pubs[c.Pick("victim", len(w.pubs))]
+			if c.Bool("honestFirst") {
+				// history: the client has already verified the untouched exchanges of this run
+				// (whatever it remembered must not help the attacked one)
+				for _, o := range w.pubs {
+					if he, err := signedexchange.ReadExchange(bytes.NewReader(o.File)); err == nil {
+						ht := time.Unix(o.Date+c.I64("honestFirst.t", 0, o.Expires-o.Date), 0)
+						if v := verify(c, he, ht, w.net); c.Oracle("C01") && (v.pi != nil || !v.ok) {
+							c.Violation("honest-rejected", "Exchange.Verify", "an untouched exchange was rejected inside its window")
+						}
+					}
+				}
+				c.Probe("attack after honest verifications in the same process")
+			}
 			e, what := tamper(c, w, l)
 			c.Sig("%s/%s", l.Version, what)
 			if e == nil {
